@@ -283,6 +283,9 @@ def rand_spec(rng, **force):
         "level_shift": bool(rng.random() < 0.5),
         "max_steps": int(force.get("max_steps", 12)),
     }
+    for k in ("shared_problem", "level_shift", "cutoff", "stats_wrapper", "hibernation"):
+        if k in force:
+            spec[k] = force[k]
     if gsc["kind"] == "SingularProblemPrecisionReached":
         spec["shared_problem"] = True
     return spec
